@@ -43,9 +43,9 @@ Fixpoint tmatch (dot : N -> bool) (ts : list ltok) (s : list N) : bool :=
        tmatch dot ts' s || match s with x :: s' => dot x && star s' | [] => false end) s
   end.
 
-(* (a) regex crate defaults: `.` is any Unicode scalar value except '\n' (no `s` flag),
-   `^`/`$` are start/end of the haystack (no `m` flag) *)
-Definition dot_regex (x : N) : bool := negb (x =? NL).
+(* (a) the regex is built as "(?s)^...$": with the `s` flag `.` is any Unicode scalar value,
+   '\n' included; `^`/`$` are start/end of the haystack (no `m` flag) *)
+Definition dot_regex (x : N) : bool := true.
 Definition like_regex (pat s : list N) : bool := tmatch dot_regex (like_tokens pat) s.
 
 (* (b) declarative: `_` any one character, `%` any sequence, `\x` the character x *)
@@ -118,7 +118,8 @@ Inductive rewrite :=
 | RKeep (pat : list N).
 
 Definition classify (pat : list N) : rewrite :=
-  if can_str_compare pat then REq pat
+  if has BSL pat then RKeep pat           (* `if pattern.contains('\\') { return Ok(()) }` *)
+  else if can_str_compare pat then REq pat
   else if is_prefix_pattern pat then RStarts (trim_matches PCT pat)
   else if is_suffix_pattern pat then REnds (trim_matches PCT pat)
   else if is_contains_pattern pat then RContains (trim_matches PCT pat)
@@ -133,6 +134,27 @@ Definition rewrite_sem (r : rewrite) (s : list N) : bool :=
   | RKeep pat => like_regex pat s
   end.
 
-(* side conditions of the provable statements *)
 Definition no_bsl (pat : list N) : bool := negb (has BSL pat).
 Definition no_nl (s : list N) : bool := negb (has NL s).
+
+(* The definitions as they were before the fixes 243b792b2 (rewrite skipped for patterns with the
+   escape character) and 41580d7d1 (regex built with `(?s)`): kept only for the regression
+   witnesses in proofs/LikeProofs.v. *)
+Module Old.
+  Definition dot_regex (x : N) : bool := negb (x =? NL).
+  Definition like_regex (pat s : list N) : bool := tmatch dot_regex (like_tokens pat) s.
+  Definition classify (pat : list N) : rewrite :=
+    if can_str_compare pat then REq pat
+    else if is_prefix_pattern pat then RStarts (trim_matches PCT pat)
+    else if is_suffix_pattern pat then REnds (trim_matches PCT pat)
+    else if is_contains_pattern pat then RContains (trim_matches PCT pat)
+    else RKeep pat.
+  Definition rewrite_sem (r : rewrite) (s : list N) : bool :=
+    match r with
+    | REq p => list_eqb s p
+    | RStarts p => starts_with s p
+    | REnds p => ends_with s p
+    | RContains p => contains s p
+    | RKeep pat => like_regex pat s
+    end.
+End Old.
